@@ -371,6 +371,70 @@ def ctl_model(out, prop, tier, seed):
 
 
 # ------------------------------------------------------------------------------------------------
+# C06 (exploration): TLC enumerates history shapes, the harness replays them and logs number classes, TLC evaluates
+# the property on the log
+# ------------------------------------------------------------------------------------------------
+def filter_shapes(out, prop, tier, seed):
+    cfg = "quick" if tier == "quick" else "big"
+    shapes = []
+    res = vf.run_tlc("FilterShapes", "Gen_FilterShapes_%s.cfg" % cfg, workers=8, timeout=1500, tags=("EDGE",),
+                     line_sink=lambda tag, obj: shapes.append(obj), coverage=False)
+    if not shapes:
+        raise vf.ToolError("FilterShapes enumerated nothing")
+    shapes.sort(key=vf.key)
+    wd = vf.workdir("FilterShapes")
+    inp = os.path.join(wd, "shapes.ndjson")
+    outp = os.path.join(wd, "results.ndjson")
+    vf.write_ndjson(inp, shapes)
+    vf.run_harness(CRATE, TEST, {"mode": "filter", "input": inp, "output": outp, "seed": seed}, timeout=1500)
+    results = vf.read_ndjson(outp)
+    if len(results) != len(shapes):
+        raise vf.ToolError("harness returned %d results for %d shapes" % (len(results), len(shapes)))
+    # the property is evaluated by TLC on the logged classes (chunks keep TLC's JSON reader fast)
+    mism, consumed = [], 0
+    CH = 20000
+    for c0 in range(0, len(results), CH):
+        chunk = os.path.join(wd, "results_%d.ndjson" % (c0 // CH))
+        vf.write_ndjson(chunk, [{"id": r["id"], "cls": r["cls"], "nanpanic": r["nanpanic"]} for r in results[c0:c0 + CH]])
+        done = []
+
+        def sink(tag, obj):
+            (mism if tag == "MISMATCH" else done).append(obj)
+        vf.run_tlc("FilterShapes", "Trace_FilterShapes.cfg", workers=1, timeout=1500, env={"TRACE": chunk}, tags=("MISMATCH", "DONE"),
+                   line_sink=sink, coverage=False, xmx="4g", name="Trace_FilterShapes")
+        if not done:
+            raise vf.ToolError("trace evaluation of FilterShapes did not finish")
+        consumed += done[-1]["consumed"]
+    if consumed != len(results):
+        raise vf.ToolError("TLC evaluated %d of %d records" % (consumed, len(results)))
+    for m in mism:
+        sh = shapes[m["id"]]
+        bad = sorted(k for k, v in m["cls"].items() if v != "ok")
+        sig = "FilterShapes:%s%s" % (",".join("%s=%s" % (k, m["cls"][k]) for k in bad), ":nanpanic" if m["nanpanic"] else "")
+        out.violation(sig, {"how": "replay", "shape": sh, "classes": m["cls"], "nanpanic": m["nanpanic"],
+                            "panics": results[m["id"]]["panics"], "differing": bad})
+    other = [(r["id"], r["panics"]) for r in results if r["panics"] and not r["nanpanic"]]
+    for i, p in other[:5]:
+        out.notes.append("panic unrelated to NaN/inf (not a C06 matter) on shape %s: %s" % (json.dumps(shapes[i])[:300], p[:1]))
+    nontrivial = set()
+    for sh, r in zip(shapes, results):
+        if r["stable"] and r["clock_calls"] > 0 and not r["panics"]:
+            nontrivial.add(vf.key(sh))
+    out.add("evaluations", len(shapes))
+    out.coverage["distinct_nontrivial"] = len(nontrivial)
+    out.add("shapes_with_other_panics", len(other))
+    nd = [r["id"] for r in results if r.get("disp_nan_after_step")]
+    out.add("shapes_with_nan_root_dispersion_at_negative_elapsed_time", len(nd))
+    if nd:
+        out.notes.append("observation (outside C06 as stated): TimeSnapshot::root_dispersion(now) is NaN when `now` lies far before the "
+                         "snapshot's base time, i.e. right after a backward step of years; first shape %s" % json.dumps(shapes[nd[0]])[:300])
+    out.add("shapes_reaching_kalman_phase", sum(1 for r in results if r["stable"]))
+    if len(nontrivial) < 2:
+        raise vf.ToolError("vacuous: only %d shapes reached the Kalman phase and steered the clock" % len(nontrivial))
+    out.sample({"shape": shapes[len(shapes) // 2], "classes": results[len(shapes) // 2]["cls"]})
+
+
+# ------------------------------------------------------------------------------------------------
 def run(prop, tier, seed):
     out = vf.Outcome(prop, tier, seed, MANIFEST[prop]["level"])
     out.assumptions += ["code observed as compiled for tests (debug assertions, overflow checks, panic instead of process::exit)"]
@@ -392,12 +456,17 @@ def run(prop, tier, seed):
                                 "controllers with a recording clock; state projection and clock calls compared after every step")
         ctl_model(out, prop, tier, seed)
         out.coverage.setdefault("traces_validated_against_impl", 0)
+    elif prop == "C06":
+        out.coverage["rule"] = ("TLC enumerates measurement-history shapes over adversarial value classes (8 initial samples of a base "
+                                "class, then every tail of <=2 classes); each is replayed on the real source and clock controllers with "
+                                "steering fed back; every observable number must be finite and every uncertainty non-negative")
+        filter_shapes(out, prop, tier, seed)
     else:
         raise vf.ToolError("not implemented: %s" % prop)
     return out
 
 
-PROPS = ["C01", "C02", "C03", "C04", "C37"]
+PROPS = ["C01", "C02", "C03", "C04", "C37", "C06"]
 
 _T = ("TLA+ specification (spec/ClockSel.tla, spec/ClockCtl.tla) model-checked with TLC; every enumerated case / explored transition "
       "replayed on the real code (select(), combine(), TimeSyncControllerWrapper<KalmanClockController<mock clock>>)")
@@ -427,6 +496,15 @@ MANIFEST = {
                      "data for removed ids.",
                 note="bounded: 2 (thorough 3) source slots, <=2 (3) queued messages; the harness relays messages one at a time between the "
                      "sources' channel and the loop's channel"),
+    "C06": dict(level="exploration", technique="TLA+ module spec/FilterShapes.tla: TLC enumerates adversarial measurement-history shapes over "
+                "value classes and evaluates the finiteness / non-negativity predicate on the number classes logged by the harness, which "
+                "replays every shape on the real KalmanSourceController + KalmanClockController with steering fed back",
+                design_ref="5.4, 7 (C06), 8", engine="tlc+replay",
+                text="Every history shape (base class x 8 samples, tails of <=2 classes x repetitions; offsets 0..+-2^31 s, delays negative..2^31 s, "
+                     "spacing 1 ms..2^17 s, root dispersion 0/max) leaves all estimates, observe() fields, clock-call arguments and published "
+                     "snapshot coefficients finite and all uncertainties non-negative; NaN caught by the code's own debug assertions counts.",
+                note="exploration only: the floating-point filter is not modelled, the oracle is finiteness/sign; one source; "
+                     "histories of 8+<=6 measurements; other panics (integer overflow at saturated values) are reported as notes"),
     "C04": dict(level="model_checking", technique=_T, design_ref="6.3, 7 (Clock controller group)", engine="tlc+replay",
                 text="Leap vote transcribed as VoteLeap; strict-majority-of-known condition checked by TLC on all multisets of <=6 "
                      "indicators; each replayed in three orders on the real combine().",
